@@ -423,76 +423,64 @@ func (p *Program) ruleWidths(c *Check) {
 	} else {
 		p.runE8(c, row)
 	}
-	// sibling switches
-	widths := func(fname string) map[string]string {
-		fn := p.Func("geometry", fname)
-		fd, pkg := p.Decl(fn), p.DeclPkg(fn)
-		if fd == nil {
-			return nil
-		}
-		out := map[string]string{}
-		ast.Inspect(fd.Body, func(n ast.Node) bool {
-			sw, ok := n.(*ast.SwitchStmt)
-			if !ok {
-				return true
-			}
-			for _, cl := range sw.Body.List {
-				cc := cl.(*ast.CaseClause)
-				key := "default"
-				if cc.List != nil {
-					if k, ok := constInt(pkg.TypesInfo, cc.List[0]); ok {
-						key = fmt.Sprint(k)
-					}
-				}
-				w := ""
-				for _, st := range cc.Body {
-					ast.Inspect(st, func(m ast.Node) bool {
-						switch x := m.(type) {
-						case *ast.CallExpr:
-							name := types.ExprString(x.Fun)
-							switch {
-							case strings.HasSuffix(name, "Uint16"):
-								w = "2"
-							case strings.HasSuffix(name, "Uint32"):
-								w = "4"
-							case strings.HasSuffix(name, "Uint64"):
-								w = "8"
-							case name == "append" && w == "":
-								w = fmt.Sprint(len(x.Args) - 1)
-							}
-						case *ast.IndexExpr:
-							if w == "" {
-								w = "1"
-							}
-						}
-						return true
-					})
-				}
-				out[key] = w
-			}
-			return false
-		})
-		return out
-	}
-	wa, wr := widths("appendNum"), widths("readNum")
-	if wa == nil || wr == nil {
+	// the variable-width codec: for every width code (1, 2, anything else) the writer appends and the
+	// reader consumes the same number of bytes: 1, 2 and 4
+	an, rn := p.Func("geometry", "appendNum"), p.Func("geometry", "readNum")
+	if an == nil || rn == nil || p.Decl(an) == nil || p.Decl(rn) == nil {
 		c.Undecided("E9.I3", "geometry.appendNum~readNum", "", "codec functions not found")
 		return
 	}
-	good := len(wa) == len(wr)
-	for k, v := range wa {
-		if wr[k] != v || (k != "default" && k != v) {
-			good = false
+	wantWidth := func(a *e8assign, wname string) int {
+		switch {
+		case a.has(wname, "1") && a.R(wname) == a.R("1"):
+			return 1
+		case a.has(wname, "2") && a.R(wname) == a.R("2"):
+			return 2
 		}
+		return 4
 	}
-	if wa["default"] != "4" {
-		good = false
-	}
-	if good {
-		c.OK("E9.I3", "geometry.appendNum~readNum", p.declPos(p.Func("geometry", "appendNum")), fmt.Sprintf("writer and reader implement the same widths %v", wa))
-	} else {
-		o := c.Bad("E9.I3", "geometry.appendNum~readNum", p.declPos(p.Func("geometry", "appendNum")), "the variable-width writer and reader disagree on the number of bytes per width code")
-		o.Expected, o.Observed = fmt.Sprint(wa), fmt.Sprint(wr)
+	before := len(c.Obs)
+	p.runE8(c, &e8row{id: "geometry.appendNum#width", fn: an, atoms: []string{"1", "2"}, group: func(string) int { return 0 },
+		what: "appends 1 byte for width code 1, 2 bytes for code 2 and 4 bytes for every other code",
+		spec: func(a *e8assign, n *e8names, out *e8out) string {
+			got := 0
+			for _, cl := range out.in.called("append") {
+				if len(cl.args) >= 2 {
+					got += len(cl.args) - 1
+				}
+			}
+			if want := wantWidth(a, "p2"); got != want {
+				return fmt.Sprintf("appends %d bytes for a width code that stands for %d", got, want)
+			}
+			return ""
+		}})
+	p.runE8(c, &e8row{id: "geometry.readNum#width", fn: rn, atoms: []string{"1", "2"}, group: func(string) int { return 0 },
+		what: "reads 1 byte for width code 1, 2 bytes for code 2 and 4 bytes for every other code",
+		spec: func(a *e8assign, n *e8names, out *e8out) string {
+			if !out.returned || len(out.ret) != 1 || out.ret[0] == nil {
+				return "nothing is returned"
+			}
+			name := out.ret[0].name
+			got := 0
+			switch {
+			case strings.Contains(name, "Uint32("):
+				got = 4
+			case strings.Contains(name, "Uint16("):
+				got = 2
+			default:
+				for k := 0; k < 8; k++ {
+					if strings.Contains(name, fmt.Sprintf("p0[%d]", k)) {
+						got = k + 1
+					}
+				}
+			}
+			if want := wantWidth(a, "p1"); got != want {
+				return fmt.Sprintf("reads %d bytes (%s) for a width code that stands for %d", got, name, want)
+			}
+			return ""
+		}})
+	for _, o := range c.Obs[before:] {
+		o.Rule = "E9.I3"
 	}
 }
 
